@@ -236,15 +236,25 @@ impl Amt for SignedAmount {
 }
 
 fn amt_result<W: Serialize + DeserializeOwned>(w: &W, back: fn(W) -> String) -> String {
+    // read the JSON back along three routes: from the text, from a reader, and through serde_json::Value;
+    // they must agree (a helper that can only borrow `&str` from an in-memory text fails on the other two)
     match serde_json::to_string(w) {
-        Ok(s) => format!(
-            "OK {} {}",
-            show_hex(s.as_bytes()),
-            match serde_json::from_str::<W>(&s) {
+        Ok(s) => {
+            let a = match serde_json::from_str::<W>(&s) {
                 Ok(y) => back(y),
                 Err(_) => "ERR".to_string(),
-            }
-        ),
+            };
+            let b = match serde_json::from_reader::<_, W>(s.as_bytes()) {
+                Ok(y) => back(y),
+                Err(_) => "ERR".to_string(),
+            };
+            let c = match serde_json::to_value(w).and_then(serde_json::from_value::<W>) {
+                Ok(y) => back(y),
+                Err(_) => "ERR".to_string(),
+            };
+            let r = if a == b && b == c { a } else { format!("ROUTES-DISAGREE:text={}:reader={}:value={}", a, b, c).replace(' ', "_") };
+            format!("OK {} {}", show_hex(s.as_bytes()), r)
+        }
         Err(_) => "ERR".into(),
     }
 }
